@@ -1,6 +1,6 @@
 """C03 -- see harness/pipeline.py (shared site-targeting harness)."""
-from harness import pipeline
+from harness import gccutil, pipeline
 
 PROPERTY = "C03"
 LEVEL = "model_checking"
-FAMILIES = pipeline.families(("C03",))
+FAMILIES = pipeline.families(("C03",)) + [gccutil.family(("C03",))]
